@@ -132,6 +132,10 @@ def run(ctx) -> None:
     c03.r03_2(Relabel(ctx, "R01.18"))
     c03.r03_3(Relabel(ctx, "R01.18"))
     tooltables.fault_tables(ctx, "R01.19", items_only=True)
+    ctx.rule("R01.20", "every predicate / function / key is called like the stdlib tool calls it, also one that is falsy (a callable "
+                       "object with __len__ or __bool__): whether one was given is decided by `is None`, never by its truth value "
+                       "(R03.12, shared)")
+    c03.r03_12(Relabel(ctx, "R01.20"), modules=("builtins", "itertools", "heapq", "_core"))
     ctx.floor("tool_cells_decided", 340)
     ctx.floor("merge_cells", 6)
     ctx.floor("yield_sites", 18)
